@@ -75,6 +75,8 @@ type qosRun struct {
 	gate      *gate          // parks S's write loop at write.beforeLock (forced queue-full)
 	gated     bool           // the write loop is parked right now
 	gatedStep map[uint64]int // uid -> index of the step in which it was published while the loop was parked
+	padTo     int            // payload length of the next publishes (write-buffer bursts)
+	wbuf      int            // write-buffer histories: ClientNetWriteBufferSize in force
 }
 
 func zz(n int64) sx.V {
@@ -287,7 +289,11 @@ func (q *qosRun) publishP(k int, t int, qos byte, mei uint32) {
 	q.uid++
 	u := q.uid
 	deliver := q.sSubscribed()
-	pk := broker.PublishPk([]string{"p/a", "p/b"}[t], []byte(strconv.FormatUint(u, 10)), qos, false, 0)
+	payload := strconv.FormatUint(u, 10)
+	for len(payload) < q.padTo { // leading zeros keep the uid readable
+		payload = "0" + payload
+	}
+	pk := broker.PublishPk([]string{"p/a", "p/b"}[t], []byte(payload), qos, false, 0)
 	if qos > 0 {
 		pk.PacketID = 1
 	}
@@ -399,6 +405,56 @@ func (q *qosRun) gatedBurst(n int) {
 	}
 	if q.trace {
 		fmt.Fprintf(os.Stderr, "  (gated burst released)\n")
+	}
+}
+
+// wbufBurst: one publisher, one topic, one QoS, payload sizes around the write-buffer size, all queued for S while
+// its write loop is parked, so that the loop then runs with a non-empty queue and goes through WritePacket's
+// buffering branches.  What S receives is reported in WIRE ORDER in one closing step (these histories are judged by
+// the C12 monitor only; the component model has no write-buffer stage).
+func (q *qosRun) wbufBurst() {
+	if q.gate == nil || !q.sConnected() || !q.sSubscribed() {
+		return
+	}
+	g := q.gate
+	g.mu.Lock()
+	g.armed = true
+	base := len(g.waiters)
+	g.mu.Unlock()
+	q.gated = true
+	q.padTo = 0
+	q.publishP(1, 1, 0, 0) // another publisher / topic: the message the write loop parks with
+	parked := waitFor(func() bool { return g.count() == base+1 })
+	g.disarm()
+	if parked {
+		qos := byte(q.rng.Intn(3))
+		n := 3 + q.rng.Intn(3)
+		w := q.wbuf
+		sizes := []int{0, 0, w / 2, w - 20, w - 8, w, w + 10, 2 * w}
+		big := q.rng.Intn(n-1) + 1 // at least one packet of a buffer's size behind a small one
+		for i := 0; i < n; i++ {
+			q.padTo = sizes[q.rng.Intn(len(sizes))]
+			if i == 0 {
+				q.padTo = 0
+			}
+			if i == big {
+				q.padTo = w + q.rng.Intn(w)
+			}
+			q.publishP(0, 0, qos, 0)
+		}
+		q.padTo = 0
+	} else {
+		q.b.Hung = true
+	}
+	for j := base; j < g.count(); j++ {
+		g.release(j)
+	}
+	q.gated = false
+	q.begin()
+	q.b.Quiesce()
+	q.observe(sx.L{sx.N(4)}, 0) // everything S received, in wire order
+	for guard := 0; len(q.pend) > 0 && guard < 40 && q.sConnected(); guard++ {
+		q.ackNext(0, 0)
 	}
 }
 
@@ -529,6 +585,7 @@ type qosCfg struct {
 	steps   int
 	sleepy  bool
 	gate    bool   // MaximumClientWritesPending = 1 and forced queue-full bursts
+	wbuf    int    // > 0: write-buffer bursts with this ClientNetWriteBufferSize (monitor-only histories)
 	word    []byte // exhaustive stream: a word over the symbolic alphabet a..g
 }
 
@@ -542,13 +599,17 @@ func runQosHistory(seed int64, c qosCfg, trace bool) sx.V {
 		caps.MaximumClientWritesPending = 1
 		g = &gate{}
 		mqtt.VerifPointHook = g.hook
+	} else if c.wbuf > 0 {
+		g = &gate{}
+		mqtt.VerifPointHook = g.hook
 	} else {
 		mqtt.VerifPointHook = nil
 	}
-	b := broker.New(broker.Opts{Caps: caps, Auth: broker.AllowAuth, ACL: broker.AllowACL, MaxPacketID: c.maxpid})
+	b := broker.New(broker.Opts{Caps: caps, Auth: broker.AllowAuth, ACL: broker.AllowACL, MaxPacketID: c.maxpid,
+		WriteBufferSize: c.wbuf})
 	defer b.Shutdown()
 	q := &qosRun{rng: rand.New(rand.NewSource(seed)), b: b, subqos: c.subqos, trace: trace, myuid: map[uint64][]byte{},
-		sleepy: c.sleepy, gate: g, gatedStep: map[uint64]int{}}
+		sleepy: c.sleepy, gate: g, gatedStep: map[uint64]int{}, wbuf: c.wbuf}
 	if trace {
 		fmt.Fprintf(os.Stderr, "history seed=%d cfg=%+v\n", seed, c)
 	}
@@ -561,6 +622,9 @@ func runQosHistory(seed int64, c qosCfg, trace bool) sx.V {
 	q.connectS(c.v5, c.clean, c.sei, c.rm)
 	q.subscribeS()
 	q.runScript(c)
+	for i := 0; c.wbuf > 0 && i < 4 && !b.Hung; i++ {
+		q.wbufBurst()
+	}
 	for _, sym := range c.word {
 		q.symbolic(c, sym)
 	}
@@ -576,6 +640,9 @@ func runQosHistory(seed int64, c qosCfg, trace bool) sx.V {
 	}
 	cfg := sx.L{sx.N(uint64(c.maxpid)), sx.N(uint64(c.maxinfl)), sx.N(uint64(c.srvrm)),
 		sx.N(uint64(caps.MaximumMessageExpiryInterval))}
+	if c.wbuf > 0 {
+		cfg = append(cfg, sx.N(1)) // monitor-only history
+	}
 	return sx.L{cfg, q.steps}
 }
 
@@ -844,9 +911,12 @@ func (q *qosRun) randomStep(c qosCfg) {
 func engQos(seed int64, tier string, args []string, out *sx.Out) {
 	trace := false
 	only := ""
+	wbuf := false
 	for _, a := range args {
 		if a == "trace" {
 			trace = true
+		} else if a == "wbuf" {
+			wbuf = true // C12 only: write-buffer bursts, judged by the monitor alone
 		} else {
 			only = a
 		}
@@ -891,6 +961,21 @@ func engQos(seed int64, tier string, args []string, out *sx.Out) {
 			}
 			emit(c)
 			c.steps = 12
+			emit(c)
+		}
+	}
+	if wbuf {
+		nw := 12
+		if tier == "thorough" {
+			nw = 200
+		}
+		for i := 0; i < nw && (only == "" || only == "wb"); i++ {
+			c := base
+			c.maxpid, c.srvrm, c.rm = 65535, 4, 0
+			c.wbuf = []int{64, 128, 256, 2048}[i%4]
+			if i%5 == 4 {
+				c.v5, c.sei = false, 0
+			}
 			emit(c)
 		}
 	}
